@@ -99,6 +99,12 @@ theorem realign_no_exclusion (internal : List (List Id)) (x : List Rat) (h : x.l
   simp [realign, h]
 
 /-! non-vacuity -/
+-- hypotheses of `cosLe_spec` (`s = ‖a‖‖b‖ = 5`) and of `cosLe_mono`
+example : (0 : Rat) ≤ 5 ∧ (5 : Rat) * 5 = (Vec.normSq ⟨3, 4⟩) * (Vec.normSq ⟨1, 0⟩) := by decide +kernel
+example : (-1 : Rat) ≤ 0 ∧ cosLe ⟨1, 0⟩ ⟨-2, 0⟩ (-1) = true := by decide +kernel
+-- hypotheses of `realign_length` / `realign_excluded` / `realign_kept` (two solved values, one excluded interface)
+example : ([5, 7] : List Rat).length + excludedCount [[1, 2], [2, 3], [3, 1]] [2, 3] = [[1, 2], [2, 3], [3, 1]].length ∧
+    FMInput.bothDeleted [2, 3] (([[1, 2], [2, 3], [3, 1]] : List (List Id)).getD 1 []) = true := by decide +kernel
 example : realign [[1, 2], [2, 3], [3, 1]] [2, 3] [5, 7] = [5, -1, 7] := by decide +kernel
 example : excludedCount [[1, 2], [2, 3], [3, 1]] [2, 3] = 1 := by decide
 
